@@ -23,6 +23,7 @@ from .. import astutil as A
 from ..alg import Interp, Obj, Poly, PyFunc, Undecided, fn, to_poly
 from ..dep import Deps
 from .. import listnp
+from . import viewers
 
 EXPLANATION = (
     "Every modifier applier registered in histfactory_set is abstractly interpreted (mask present / absent) with the "
@@ -92,6 +93,10 @@ def run(ctx):
 
     r8 = ctx.rule("C01.R8", "ACCESS: interpreting the constructors of the bin-wise appliers (staterror, shapesys, shapefactor) on a concrete 2-modifier x 2-sample x 3-channel x 4-bin configuration, with and without batching, the stored access field sends every bin the modifier acts on to that modifier's own parameter index for the bin (also when its bins are not contiguous and when it is carried only by the last sample)", "ACCESS", floor=6)
     _access_fields(ctx, r8, reg)
+    r9 = ctx.rule("C01.R9", viewers.RULE_TEXT, "VIEW", floor=16)
+    viewers.check(ctx, r9)
+    r10 = ctx.rule("C01.R10", "APPLY: constructor + _precompute + apply of the multiplicative appliers normfactor, lumi, staterror, shapesys, shapefactor interpreted END TO END (real ParamViewer/_TensorViewer, list tensors) on 2 modifiers x 2 samples x 3 channels x 4 bins, unbatched and with 2 batch rows: the factor in cell (modifier, sample, row, bin) is the modifier's own parameter component for that bin in that row where the sample declares it, and exactly 1 elsewhere", "APPLY", floor=10)
+    _apply_end_to_end(ctx, r10, reg)
 
     for key, (b, c) in sorted(reg.items()):
         for m in list(b.methods.values()) + list(c.methods.values()):
@@ -466,3 +471,69 @@ def _access_fields(ctx, rid, reg):
                     ctx.violated(rid, init, f"{c.name} access field [batch_size={bs}]", "the access field does not send each bin a bin-wise modifier acts on to that modifier's own parameter for the bin" + (" (position of the bin inside its channel)" if key == "shapefactor" else " (k-th masked bin -> k-th parameter; the modifier's bins need not be contiguous)"), expected=str(exp), found=str(got))
             except (Undecided, KeyError, TypeError, ValueError, IndexError, AttributeError) as e:
                 ctx.unrecognised(rid, init, f"{c.name}.__init__ [batch_size={bs}]", f"not interpretable: {type(e).__name__}: {e}")
+
+
+def _apply_end_to_end(ctx, rid, reg):
+    repo = ctx.repo
+    at, c = Poly.atom, Poly.const
+    T, F_ = True, False
+    samples, channels, nb = ["s1", "s2"], ["cz", "ca", "cm"], {"cz": 1, "ca": 1, "cm": 2}
+    chan_pos = [0, 0, 0, 1]  # position of each global bin inside its channel
+    masks_all = {
+        "mZ": {"s1": [F_, F_, F_, F_], "s2": [T, F_, T, T]},
+        "mA": {"s1": [F_, T, F_, F_], "s2": [F_, T, F_, F_]},
+    }
+
+    def sl(s_, e_):
+        return Obj("slice", {"start": c(s_), "stop": c(e_)})
+
+    for key in ("normfactor", "lumi", "staterror", "shapesys", "shapefactor"):
+        if key not in reg:
+            ctx.unrecognised(rid, None, key, "applier missing from the registry")
+            continue
+        b, cl = reg[key]
+        mods = ["mZ"] if key == "lumi" else ["mZ", "mA"]  # the schema admits a single luminosity parameter
+        masks = {m: masks_all[m] for m in mods}
+        union = {m: [any(masks[m][s_][j] for s_ in samples) for j in range(4)] for m in mods}
+        if key in ("staterror", "shapesys"):
+            ncomp = {m: sum(union[m]) for m in mods}
+            comp = {m: [sum(union[m][:j]) if union[m][j] else None for j in range(4)] for m in mods}
+        elif key == "shapefactor":
+            ncomp = {m: max(chan_pos[j] for j in range(4) if union[m][j]) + 1 for m in mods}
+            comp = {m: [chan_pos[j] for j in range(4)] for m in mods}
+        else:
+            ncomp = {m: 1 for m in mods}
+            comp = {m: [0] * 4 for m in mods}
+        # parameter layout: two unrelated parameters first, then the modifiers in REVERSE listing order
+        start, off, pm = {}, 2, {"other": {"slice": sl(0, 2)}}
+        for m in reversed(mods):
+            start[m] = off
+            pm[m] = {"slice": sl(off, off + ncomp[m])}
+            off += ncomp[m]
+        npars = off
+        for bs in (None, 2):
+            rows = bs or 1
+            site = f"{cl.relpath}::{cl.name} end to end [batch_size={bs}]"
+            try:
+                w = viewers.world(repo)
+                w.add_class(cl)
+                bd = {f"{key}/{m}": {s_: {"data": {"mask": list(masks[m][s_]), "nom_data": [at(f"n{j}") for j in range(4)], "uncrt": [at(f"u{j}") for j in range(4)]}} for s_ in samples} for m in mods}
+                cfg = Obj("pdfconfig", {"samples": list(samples), "channels": list(channels), "channel_nbins": {k_: c(v_) for k_, v_ in nb.items()}, "npars": c(npars), "par_map": pm})
+                inst = w.new(cl, [[(m, key) for m in mods], cfg, bd], {"batch_size": None if bs is None else c(bs)})
+                pars = [at(f"p{j}") for j in range(npars)] if bs is None else [[at(f"p{r}_{j}") for j in range(npars)] for r in range(rows)]
+                out = w.call_method(inst, "apply", [pars])
+                got = [[[[str(to_poly(x)) for x in row] for row in smp] for smp in mod] for mod in out]
+                pname = (lambda r, j: f"p{j}") if bs is None else (lambda r, j: f"p{r}_{j}")
+                want = [[[[pname(r, start[m] + comp[m][j]) if masks[m][s_][j] else "1" for j in range(4)] for r in range(rows)] for s_ in samples] for m in mods]
+                if got == want:
+                    ctx.holds(rid, site, f"{len(mods)} x 2 x {rows} x 4 cells: own parameter where declared, 1 elsewhere")
+                else:
+                    bad = next(((mi, si, r, j) for mi in range(len(want)) for si in range(2) for r in range(rows) for j in range(4) if mi >= len(got) or si >= len(got[mi]) or r >= len(got[mi][si]) or j >= len(got[mi][si][r]) or got[mi][si][r][j] != want[mi][si][r][j]), None)
+                    mi, si, r, j = bad
+                    try:
+                        g_ = got[mi][si][r][j]
+                    except IndexError:
+                        g_ = "<missing>"
+                    ctx.violated(rid, cl.methods["apply"], f"{cl.name} factor [batch_size={bs}]", f"the factor of modifier {mods[mi]} on sample {samples[si]}, batch row {r}, global bin {j} is {g_}; the rate formula wants {want[mi][si][r][j]} (own parameter component where the sample declares the modifier, 1 elsewhere)", expected=str(want), found=str(got))
+            except (Undecided, KeyError, TypeError, ValueError, IndexError, AttributeError) as e:
+                ctx.unrecognised(rid, cl, f"{cl.name} end to end [batch_size={bs}]", f"not interpretable: {type(e).__name__}: {e}")
